@@ -46,6 +46,14 @@ def instances(tier: str) -> list[dict]:
             add(N5, ("rule", s.as_json()), s.label())
         s = RuleSpec(verb, direction, exc, "sub", ("p",), "named", ("p",))
         add(N3, ("rule", s.as_json()), s.label())
+    # nested 'sub modules of' filters (a package and one of its own sub packages in one batch): the sets built
+    # from them mix a parent's exclusion with its child's sub-module set
+    NC = ["a", "a.x", "a.x.y", "b"]
+    for verb, direction, exc in (SHAPES if tier == "thorough" else SHAPES[::2]):
+        s = RuleSpec(verb, direction, exc, "named", ("b",), "sub", ("a", "a.x"))
+        add(NC, ("rule", s.as_json()), s.label())
+        s = RuleSpec(verb, direction, exc, "sub", ("a", "a.x"), "named", ("b",))
+        add(NC, ("rule", s.as_json()), s.label())
     for d in ("import", "imported"):
         s = RuleSpec("should_not", d, False, "named", ("p.a", "p.b"), "named", (), True)
         add(N4, ("rule", s.as_json()), s.label())
